@@ -20,9 +20,9 @@ def oracle(line: str, obs: Obs):
     ident: dict[str, str] = {}             # conn -> host identity after the capabilities exchange
     for ev, lines in obs.blocks:
         t = ev.split(" ")
-        if t[0] == "rx":
+        if t[0] in ("rx", "rxcut"):
             c = f"c{t[1]}"
-            for d in t[2:]:
+            for d in (t[2:] if t[0] == "rx" else t[3:]):
                 m = parse_msg(d)
                 if m["R"]:
                     key = (m["cmd"], m["app"], m["hbh"], m["e2e"])
@@ -86,6 +86,24 @@ def scenarios(rng: random.Random, n: int, depth: int) -> list[str]:
             napps = nodegen.CONFIGS[cfgn].count("app:")
             out.append(pre + f" | rx {c} {nodegen.ccr(n(), n())} | rx {c} {nodegen.dpr(n(), n())} | " +
                        " | ".join(f"ans {a} 0 2001" for a in range(napps)))
+    # one read ending inside the next message: the complete one is answered once, the other when its rest arrives
+    for cfgn in ("basic", "two"):
+        pre = nodegen.CONFIGS[cfgn] + " | start | acc | rx 0 " + nodegen.cer("peer1.x", "4", n(), n())
+        for cut in (1, 19, 20, 21, 28, 1000):
+            out.append(pre + f" | rxcut 0 {cut} {nodegen.dwr(n(), n())} {nodegen.dwr(n(), n())} | rx 0 {nodegen.dwr(n(), n())}")
+            out.append(pre + f" | rxcut 0 {cut} {nodegen.ccr(n(), n())} {nodegen.unk(n(), n(), app=77)} | tick")
+            out.append(pre + f" | rxcut 0 {cut} {nodegen.unk(n(), n())} {nodegen.dpr(n(), n())} | tick")
+    # answers carrying the T flag and the identifiers of a request the node has answered before
+    for cfgn in ("basic", "two", "rq"):
+        pre = nodegen.CONFIGS[cfgn] + " | start | acc | rx 0 " + nodegen.cer("peer1.x", "4", n(), n())
+        h1, e1, h2, e2 = n(), n(), n(), n()
+        for fl in (16, 80, 48):
+            stray = [f"DW:{fl}:0:{n()}:{e1}:rc=2001,oh=peer1.x,or={nodegen.REALM}",
+                     f"DW:{fl}:0:{h1}:{e1}:rc=2001,oh=peer1.x,or={nodegen.REALM}",
+                     f"CC:{fl}:4:{n()}:{e2}:sid=s;1,rc=2001,oh=peer1.x,or={nodegen.REALM},auth=4,rt=1,rn=0",
+                     f"UN:{fl}:4:{n()}:{e2}:sid=s;9,oh=peer1.x,or={nodegen.REALM}"]
+            for m in stray:
+                out.append(pre + f" | rx 0 {nodegen.dwr(h1, e1)} | rx 0 {nodegen.unk(h2, e2, app=77)} | rx 0 {m} | rx 0 {nodegen.dwr(n(), n())}")
     # defective answers on connections in every state (corpus of past findings first)
     base = nodegen.CONFIGS["out"]
     out.insert(0, base + " | start ok,ok | rx 0 " + nodegen.cea(2001, None, 2001, 268435464))
